@@ -46,6 +46,7 @@ class World:
 
     def __init__(self, ctx: Ctx):
         self.ctx = ctx
+        ctx.begin_case()       # scratch paths are recycled from history to history (core.Ctx.begin_case)
         self.dir = ctx.tmpdir()
         self.history: list[dict] = []
         self.coll: list[dict] = []     # {"uri", "file", "group", "bt", "rows", "symmetric", "made_by"}
